@@ -351,6 +351,10 @@ def base_axioms() -> List[z3.BoolRef]:
                                    z3.And(eo <= ww, ww < eo + kk,
                                           z3.Not(conforms(lat(E_, ww), lat(v_, vo + (ww - eo)))))),
                         patterns=[winok(E_, eo, kk, v_, vo)]))
+    # satisfiable(S) := exists w. conforms(S, w)     (introduction direction)
+    satisfiable_ = z3.Function("satisfiable", Obj, B)
+    ax.append(z3.ForAll([o, o2_ := z3.Const("sw", Obj)], z3.Implies(conforms(o, o2_), satisfiable_(o)),
+                        patterns=[conforms(o, o2_)]))
     # == between heap objects of standard data is reflexive and symmetric (identity shortcut)
     o2 = z3.Const("o2", Obj)
     ax.append(z3.ForAll([o], ref_eq(o, o), patterns=[ref_eq(o, o)]))
